@@ -27,7 +27,7 @@ Init == /\ opt \in Opts
 
 \* handle_obvious_oom_request: larger than the maximum heap -> (callback if allowed), null
 ObviousOOM ==
-    /\ pc = "try" /\ opt.overHeap
+    /\ pc = "try" /\ (opt.overHeap \/ Mutant = "obvious_oom_wrong_bound")
     /\ ooms' = IF opt.oomCall \/ Mutant = "ignore_allow_oom" THEN ooms + 1 ELSE ooms
     /\ ret' = "null" /\ pc' = "done"
     /\ UNCHANGED <<opt, gcs, blocks, emergency>>
@@ -75,6 +75,9 @@ Contract(o, nblocks, ngcs, nooms, isnull) ==
     /\ ~o.safepoint => nblocks = 0                          \* never blocks when not at a safepoint
     /\ o.overcommit /\ o.small => nblocks = 0 /\ ~isnull    \* overcommit neither blocks nor fails
     /\ o.overHeap => isnull /\ nblocks = 0                  \* larger than the heap: fails immediately
+    \* ... and only those: any other request that may block is given up only after blocking for a
+    \* collection (an overcommitted one never blocks and may fail physically, see `small`)
+    /\ isnull /\ ~o.overHeap /\ o.safepoint /\ ~o.overcommit => nblocks > 0
     /\ nooms <= 1
 ContractHolds == pc = "done" => Contract(opt, blocks, gcs, ooms, ret = "null")
 Terminates == <>(pc = "done")
